@@ -9,7 +9,7 @@ def _one(args):
     os.environ['VERIF_SIMSQUID'] = simlib.simsquid_path(prop.variant)
     seed = framework.derive_seed(framework.DEFAULT_SEED + 7, pid, i)
     plan = prop.plan(random.Random(seed), 'quick', i)
-    wd = '/dev/shm/verif-det-%s/%s_%d' % (pid, tag, i)
+    wd = '/dev/shm/verif-det-%s/%s' % (pid, simlib.fixed_name('%s_%d' % (tag, i)))
     keep = '/dev/shm/verif-det-%s/keep_%s_%d.hist' % (pid, tag, i)
     try:
         o = prop.execute(plan, wd)
